@@ -37,6 +37,8 @@ import shutil
 import stat
 import subprocess
 
+import zlib
+
 from pylib import tlc
 from pylib.common import rng, use_repo
 
@@ -50,8 +52,14 @@ def abs_text(comps, trailing=False):
 
 
 # --------------------------------------------------------------------------- rendering a script
-def item_arg(it):
-    return "/".join(list(it["pre"]) + [it["name"]])
+def item_arg(it, slash=False):
+    return "/".join(list(it["pre"]) + [it["name"]]) + ("/" if slash else "")
+
+
+def dir_slash(h, a, it):
+    """Rendering variation only (the abstract item is the same directory): every other directory argument of a
+    recursive call is written with a trailing slash, `doins -r conf/` (seeded change C33/m5)."""
+    return bool(a["rec"]) and it["kind"] == "dir" and zlib.crc32(f"{h}|{it['name']}|{len(a['items'])}".encode()) % 2 == 0
 
 
 def render_call(h, a):
@@ -71,7 +79,7 @@ def render_call(h, a):
             argv.append("-i18n=" + a["i18n"])
         if a["hx"]:
             argv += ["-A", ",".join(a["hx"])]
-        argv += [item_arg(it) for it in a["items"]]
+        argv += [item_arg(it, dir_slash(h, a, it)) for it in a["items"]]
     return " ".join(shlex.quote(x) for x in argv)
 
 
